@@ -126,11 +126,11 @@ Fixpoint parse_xs (k : nat) (ts : list (list N)) : option (list (list N) * list 
 (* user-level drive: every call is made; results recorded; a panic stops the run *)
 Fixpoint drive_ix (w : wstate) (cs : list wcall) (acc : list N) (i : N) : wstate * list N * option N :=
   match cs with
-  | [] => (w, rev acc, None)
+  | [] => (w, rev_append acc [], None)
   | c :: r => match wstep w c with
               | Ok (w', ok) => drive_ix w' r ((if ok then 49 else 48) :: acc) (i + 1)
-              | Panic => (w, rev acc, Some i)
-              | _ => (w, rev acc, Some (i + 1000000))    (* Err / OutOfFuel never produced by wstep *)
+              | Panic => (w, rev_append acc [], Some i)
+              | _ => (w, rev_append acc [], Some (i + 1000000))    (* Err / OutOfFuel never produced by wstep *)
               end
   end.
 
